@@ -598,9 +598,9 @@ func fromNativeEndian(v ssa.Value) bool {
 // collection expressions (as rendered inside len(...)) of the walks checked by
 // ruleCollectionExhausted
 const (
-	collDBINames   = `lmdbenv\.ReadDBINames@[\w~]+#0|github\.com/samber/lo\.Filter@[\w~]+`
+	collDBINames   = `lmdbenv\.ReadDBINames@[\w~]+#0|github\.com/samber/lo\.(?:Filter|Reject)@[\w~]+`
 	collSnapDBIs   = `[^()]*\.Databases`
-	collLocalNames = `local:[\w~]+|\*?alloc:[\w.~]+|lmdbenv\.ReadDBINames@[\w~]+#0|github\.com/samber/lo\.Filter@[\w~]+`
+	collLocalNames = `local:[\w~]+|\*?alloc:[\w.~]+|lmdbenv\.ReadDBINames@[\w~]+#0|github\.com/samber/lo\.(?:Filter|Reject)@[\w~]+`
 )
 
 // COLLECTION-EXHAUSTED: the listed functions walk a collection (the DBIs of a
